@@ -183,4 +183,114 @@ example : keepsAligned Cfg.fixed [.noise none (some (.affine 1 10)) []] wNoiseFe
 theorem flatten_logged_counterexample : keepsAligned Cfg.asIs [.flatten] wFlattenLogged = false := by decide +kernel
 example : keepsAligned Cfg.fixed [.flatten] wFlattenLogged = true := by decide +kernel
 
+
+/-! ## Phase 2 -/
+
+/-! ### injectivity of the encodings on row-valued actions (the hypotheses `distinctB new` of `chain_aligned`, discharged) -/
+
+/-- Repr, any mode, on two dense rows (tuples or lists) of one shape whose categorical cells are at the
+top level: the encoded rows compare exactly as the rows did -/
+theorem repr_row_pyEq (m : Mode) (ns : List Nat) (first r1 r2 e1 e2 : Val) (hd : descending ns = true)
+    (s1 : sameDenseCatShape ns first r1 = true) (s2 : sameDenseCatShape ns first r2 = true)
+    (h1 : catset m (prepRow r1) (.l (ns.map CK.i)) = .ok e1) (h2 : catset m (prepRow r2) (.l (ns.map CK.i)) = .ok e2) :
+    pyEq e1 e2 = pyEq r1 r2 := reprRow_pyEq m ns first r1 r2 e1 e2 hd s1 s2 h1 h2
+
+/-- … hence `EncodeCatRows` keeps an action set of dense rows a set (explicit shape hypothesis `denseCatShapeB`) -/
+theorem repr_dense_rows_distinct (m : Mode) (rows enc : List Val) (hs : denseCatShapeB rows = true)
+    (h : encodeRows (some m) rows = .ok enc) (hd : Distinct rows) : Distinct enc := encodeRows_dense_distinct m rows enc hs h hd
+
+/-- Flatten on two rows of one nesting shape: the flat rows compare exactly as the nested ones -/
+theorem flatten_row_pyEq (flags : List Bool) (xs ys o1 o2 : List Val) (hf : flags.length = xs.length)
+    (hl : xs.length = ys.length) (hs : sameNestShape flags xs ys = true)
+    (h1 : flatterList flags xs = .ok o1) (h2 : flatterList flags ys = .ok o2) :
+    pyEqL o1 o2 = pyEqL xs ys ∧ o1.length = o2.length := flatterList_pyEq flags xs ys o1 o2 hf hl hs h1 h2
+
+/-- … hence `pipes.Flatten` keeps an action set of equally shaped dense rows a set -/
+theorem flatten_dense_rows_distinct (rows enc : List Val) (hs : flattenShapeB rows = true)
+    (h : flattenRows rows = .ok enc) (hd : Distinct rows) : Distinct enc := flattenRows_dense_distinct rows enc hs h hd
+
+/-- the shape hypothesis is needed: `((1,),(2,3))` and `((1,2),(3,))` are two actions with one flattening -/
+theorem flatten_shape_counterexample :
+    distinctB wFlattenShape = true ∧ flattenShapeB wFlattenShape = false ∧
+    (match flattenRows wFlattenShape with | .ok enc => distinctB enc | .error _ => true) = false := by decide +kernel
+
+/-- an affine noiser with non-zero slope is injective on numeric actions -/
+theorem noise_affine_injective (m b : Rat) (hm : m ≠ 0) (orc : List Rat) (x y : Rat) (a' b' : Val) (o1 o2 : List Rat)
+    (h1 : noises (some (.affine m b)) orc (.num x) = .ok (o1, a')) (h2 : noises (some (.affine m b)) orc (.num y) = .ok (o2, b')) :
+    pyEq a' b' = pyEq (.num x) (.num y) := noise_affine_scalar_pyEq m b hm orc x y a' b' o1 o2 h1 h2
+
+/-- Noise re-keys by position, but the positions are looked up through the noisy actions: a noiser that
+merges two actions (slope 0) breaks the alignment — the distinctness hypothesis is necessary -/
+theorem noise_collision_counterexample :
+    keepsAligned Cfg.fixed [.noise none (some (.affine 0 5)) []] wRekey = false := by decide +kernel
+
+/-- **Noise end to end (repaired code)**: every plan Noise decides meets the plan hypotheses as soon as the noisy
+action lists are sets — no semantic (`keep`) hypothesis is left -/
+theorem noise_plans_explicit (nc na : Option NoiseSpec) (rC fC : Bool) (s : List Inter) (orc : List Rat) (ps : List Plan)
+    (h : noisePlans.go Cfg.fixed nc na rC fC orc s = .ok ps)
+    (hself : ∀ I ∈ s, alignedB I I = true)
+    (hhom : ∀ I ∈ s, ∀ r, I.feedbacks = some r → r.isCallable = true → fC = true)
+    (hact : ∀ I ∈ s, I.actions = none → I.rewards = none)
+    (hdist : ∀ p ∈ ps, ∀ as, p.actions = some as → Distinct as) : plansHypB s ps = true :=
+  noise_go_hyp nc na rC fC s orc ps h hself hhom hact hdist
+
+/-! ### Python `==` -/
+
+/-- `==` is reflexive on every value Python can build from numbers, strings, categoricals, lists, tuples and dicts -/
+theorem pyEq_refl (a : Val) (h : wfNoLazy a = true) : pyEq a a = true := pyEq_refl_wf a h
+
+/-- … and symmetric on the dense fragment (no dict, no SparseDense inside) -/
+theorem pyEq_symm (a b : Val) (ha : denseOnly a = true) (hb : denseOnly b = true) : pyEq a b = pyEq b a :=
+  pyEq_symm_dense a b ha hb
+
+/-! ### filter objects: lazy delivery and reuse -/
+
+/-- the model's filter applied to sequence `B` after sequence `A` equals the filter applied to `B` alone — for every
+filter except Densify(lookup) -/
+theorem filter_stateless_except_lookup (cfg : Cfg) (st : Step) (T : DState) (A B : List Inter)
+    (hst : ∀ n p c a, st ≠ .densify n (.lookup p) c a) (hA : ∃ r, runPrimObj cfg st T A = .ok r) :
+    runObjTwice cfg st T A B = runPrim cfg st B := filter_stateless_except_lookup' cfg st T A B hst hA
+
+/-- Densify(lookup) carries exactly its key table: `B` after `A` = `B` with a table first asked for the keys of `A` -/
+theorem densify_reuse_eq_prior (cfg : Cfg) (n : Nat) (p : List String) (c a : Bool) (T : DState) (A B : List Inter)
+    (hT : primeKeys (.lookup []) (initDState n) p = .ok T)
+    (hA : ∃ r, runPrimObj cfg (.densify n (.lookup p) c a) T A = .ok r) :
+    runObjTwice cfg (.densify n (.lookup p) c a) T A B = runPrim cfg (.densify n (.lookup (p ++ keysAsked c a A)) c a) B :=
+  densify_reuse_eq_prior' cfg n p c a T A B hT hA
+
+/-- the table only grows at its end: a key keeps its slot for the life of the object -/
+theorem densify_prior_monotone (cfg : Cfg) (m : DMethod) (n : Nat) (c a rC fC : Bool) (s : List Inter) (st st' : DState) (ps : List Plan)
+    (h : densifyRun cfg m n c a rC fC st s = .ok (ps, st')) :
+    (∃ ext, st'.table = st.table ++ ext) ∧ (∀ k i, assocGet k st.table = some i → assocGet k st'.table = some i) :=
+  densify_prior_monotone' cfg m n c a rC fC s st st' ps h
+
+/-- the state a Densify object is left in is its table asked for `keysAsked` (what the harness feeds back as `prior`) -/
+theorem densify_state_is_keys (cfg : Cfg) (m : DMethod) (n : Nat) (c a rC fC : Bool) (s : List Inter) (st : DState) (ps : List Plan) (st' : DState)
+    (h : densifyRun cfg m n c a rC fC st s = .ok (ps, st')) : primeKeys m st (keysAsked c a s) = .ok st' :=
+  densifyRun_state cfg m n c a rC fC s st ps st' h
+
+/-! ### Cycle: the one filter that moves rewards on purpose -/
+
+/-- what "alignment" means for Cycle: the observable after the filter is the observable before, rotated by one
+place (`l[-1%n:] + l[:-1%n]`), and it is still given by the action (a reward function answers for every action of the set) -/
+theorem cycle_spec {n : Nat} {r r' : Rew} {acts : List Val}
+    (h : rekey (.rotate n) r acts acts = .ok r') (hd : Distinct acts) :
+    ∃ vals : List Rat, obsOf r acts = vals.map Except.ok ∧ obsOf r' acts = (rotList n vals).map Except.ok :=
+  cycle_rekey_spec' h hd
+
+/-- position by position: the j-th action earns what the (j-1)-th (cyclically) earned -/
+theorem cycle_shift {α} (l : List α) (hl : 0 < l.length) (j : Nat) (hj : j < l.length) :
+    (rotList l.length l)[j]? = l[(j + l.length - 1) % l.length]? := rotList_getElem? l hl j hj
+
+example : keepsAligned Cfg.fixed [.cycle 0] wReprDiscrete = false := by decide +kernel
+example : keepsAligned Cfg.fixed [.cycle 1] wReprDiscrete = true := by decide +kernel
+
+/-! ### Batch → BatchSafe(Finalize) → Unbatch end to end (rewards, IGL feedbacks, logged interactions) -/
+
+theorem batch_finalize_unbatch (cfg : Cfg) (k : Nat) (s : List Inter) (S' : State)
+    (h : runChain cfg [.batch (some k), .finalize, .unbatch] { stream := s } = .ok S') :
+    S'.sizes = none ∧ runPrims cfg (expandStep .finalize) s = .ok S'.stream ∧
+    (primsHypB cfg (expandStep .finalize) s = true → alignedStreamB s s = true → alignedStreamB s S'.stream = true) :=
+  batch_finalize_unbatch' cfg k s S' h
+
 end Coba.C10
